@@ -10,7 +10,7 @@ import json, re, sys, os
 
 FNSIG = {('f', 'int(int)'): 1, ('f', 'auto (int) -> int'): 1,   # the arity-less MAKE_MOCK form prints the signature as written
          ('f', 'decltype(::trompeloeil::nonconst_member_signature(&trompeloeil_interface_name::f))::type'): 1,   # IMPLEMENT_MOCK1
-         ('f', 'int(std::string const&)'): 2, ('g', 'int(int, int)'): 3, ('v', 'void(int)'): 4}
+         ('f', 'int(std::string const&)'): 2, ('g', 'int(int, int)'): 3, ('v', 'void(int)'): 4, ('z', 'int()'): 5, ('h', 'int(int, int, int)'): 6, ('q', 'std::string(int)'): 7}
 
 LOC = r'(\S+?\.cpp):(\d+)'
 
@@ -73,7 +73,8 @@ def parse_report(r, sites):
         o['fn'] = FNSIG.get((m.group(1), m.group(2)), 0)
         rest = msg[m.end():]
         # actual parameters come first, up to the first blank line / end
-        head = rest.split('\n\n', 1)[0] if '\n\n' in rest else rest
+        mh = re.match(r'(?:  param .*\n)*', rest)          # the parameter lines (none for a function without parameters)
+        head = mh.group(0)
         o['args'], o['argsok'] = parse_params(head)
         tail = rest[len(head):]
         if 'Matches saturated call requirement' in tail:
@@ -95,7 +96,7 @@ def parse_report(r, sites):
                 o['nameok'] &= ok
                 body = p[mm.end():]
                 d = 0
-                mw = re.search(r'Failed WITH\(WC\((\d+),(\d+),_1\)\)', body)
+                mw = re.search(r'Failed WITH\(WC\((\d+),(\d+),(?:_1|0)\)\)', body)
                 if mw:
                     d = 10 + int(mw.group(2))
                     if int(mw.group(1)) != e:
@@ -218,7 +219,7 @@ def parse_trace_msg(t, sites):
     if tail == '':
         o['res'] = 'void'
     else:
-        m = re.fullmatch(r' -> (-?\d+)\n', tail)
+        m = re.fullmatch(r' -> r?(-?\d+)\n', tail)          # q() returns the string "r<value>"
         if m:
             o['res'], o['resv'] = 'val', int(m.group(1))
         else:
@@ -362,7 +363,7 @@ def linearize_segment(events, sites):
             # a mock object's destruction is one critical section per expectation list: the member functions in reverse
             # declaration order, for each the active list and then the saturated one (hook "mock_dtor" inside each)
             a = d['a']
-            order = [(1, 0), (1, 1)] if a[0] == 3 else [(f, w) for f in (4, 3, 2, 1) for w in (0, 1)]
+            order = [(1, 0), (1, 1)] if a[0] == 3 else [(f, w) for f in (7, 6, 5, 4, 3, 2, 1) for w in (0, 1)]
             subs = [h for h in hooks if h['n'] == 'mock_dtor']
             if len(subs) != len(order):
                 lin.append((key_for(tickets[0] if tickets else 0), dict(base, lockviol=['no-hook-events'])))
